@@ -793,8 +793,10 @@ func main() {
 
 	if rep.ReplayFile != "" {
 		var c struct {
-			Set  ruleSet `json:"set"`
-			Name string  `json:"name"`
+			Set      ruleSet `json:"set"`
+			Name     string  `json:"name"`
+			Phase    string  `json:"phase"`
+			CaseSeed int64   `json:"case_seed"`
 		}
 		if err := rep.LoadReplay(&c); err != nil {
 			fmt.Println("cannot load replay:", err)
@@ -802,6 +804,25 @@ func main() {
 			os.Exit(3)
 		}
 		st := newStats()
+		if c.Phase == "config" || c.Phase == "source" {
+			run := runCfgCase
+			if c.Phase == "source" {
+				run = runSrcCase
+			}
+			fs, bug := runGuarded(run, c.CaseSeed, dir, st)
+			for _, f := range fs {
+				rep.Violation(f.Key, f.What, f.Case)
+			}
+			if bug != "" {
+				rep.Inconclusive("harness self-check failed: %s", bug)
+			}
+			rep.Eval(int(st.c["evaluations"]))
+			for k := range st.fp {
+				rep.Nontrivial(k)
+			}
+			cleanup()
+			rep.Finish()
+		}
 		var extra []string
 		if c.Name != "" {
 			extra = []string{c.Name}
@@ -898,6 +919,10 @@ func main() {
 		}()
 	}
 	wg.Wait()
+
+	// composed routes: configuration documents and rule sources (cfg.go, src.go)
+	cfgOut := runPhase("cfg", rep.Pick(2600, 60000), rep.Seed^0x636667, workers, dir, runCfgCase)
+	srcOut := runPhase("src", rep.Pick(1100, 25000), rep.Seed^0x737263, workers, dir, runSrcCase)
 	cleanup()
 
 	var ws []*witness
@@ -917,9 +942,22 @@ func main() {
 			rep.Violation(w.f.Key, w.f.What, w.f.Case)
 		}
 	}
+	// One defect in the basic code shows on every route built on it: the composed
+	// phases report their mismatches only if the basic routes agree with the reference.
+	if len(ws) == 0 {
+		cfgOut.report("config")
+		srcOut.report("source")
+	} else {
+		rep.Extra("composed_phase_keys_not_reported(basic routes already disagree)", len(cfgOut.best)+len(srcOut.best))
+	}
 	tot := map[string]int64{}
 	for _, st := range allStats {
 		for k, v := range st.c {
+			tot[k] += v
+		}
+	}
+	for _, o := range []*phaseOut{cfgOut, srcOut} {
+		for k, v := range o.tot {
 			tot[k] += v
 		}
 	}
@@ -942,6 +980,15 @@ func main() {
 		"rules_without_prefix(default type)", "loader_decoy_rules_in_comments",
 		"evaluations:mix", "evaluations:loader", "evaluations:domainset", "evaluations:hosts-lookup", "evaluations:hosts-msg", "evaluations:redirect", "evaluations:domainset-dag",
 		"dag_sets_included_by_several_plugins", "dag_plugins_made_of_sets_only", "dag_sets_only_plugins_listing_a_shared_set_first_then_another",
+		// config phase
+		"cfg_documents:yaml", "cfg_documents:json", "cfg_documents:decoded-map", "cfg_options_written_as_scalar", "cfg_scalar_options_containing_a_comma",
+		"cfg_options_written_as_block-list", "cfg_options_written_as_flow-list", "cfg_scalar_style:plain", "cfg_scalar_style:single-quoted", "cfg_scalar_style:double-quoted", "cfg_scalar_style:literal-block",
+		"cfg_rules_containing_comma", "cfg_rules_containing_space", "cfg_rules_containing_hash", "cfg_rules_containing_brace", "cfg_rules_containing_inner_colon", "cfg_probes_matching",
+		"evaluations:cfg-domain_set", "evaluations:cfg-hosts", "evaluations:cfg-redirect", "evaluations:cfg-sequence",
+		// source phase
+		"src_attempts_with_a_line_of_64KiB_or_more",
+		"src_reader:chunked", "src_reader:failing", "src_shape:one-line-over-64KiB", "src_shape:line-at-64KiB-edge", "src_shape:lines-around-4-32KiB", "src_shape:thousands-of-short-lines", "src_shape:cr-oddities",
+		"evaluations:src-loader", "evaluations:src-loader-novalue", "evaluations:src-domainset-file", "evaluations:src-hosts-file", "evaluations:src-redirect-file", "evaluations:src-qname-file",
 	} {
 		if tot[need] == 0 {
 			rep.Inconclusive("monitor never observed %q", need)
